@@ -109,7 +109,8 @@ CHECKS = {
          "registered, a request is reported as DSDDuplicationError exactly when it is rotation-equivalent (i.e. when the "
          "current API would resolve it to the existing object); the rotation distance the legacy object records denotes what "
          "`ComplexS.turns` denotes (that many turns of the common canonical form give the presented representation, and it is "
-         "smaller than the number of strands; distances are also compared as representations on every run); the legacy SequenceConstraint complements (tables "
+         "smaller than the number of strands; the distance reported with a duplicate, wrapped into 0..size-1, is the number of turns "
+         "from the registered representation to the requested one and `existing` is the registered object; distances are also compared as representations on every run); the legacy SequenceConstraint complements (tables "
          "regenerated from its behaviour on every run) agree with iupac_utils on sequences of every length wherever both "
          "are defined. Pair table, loop index, kernel string, size, connectivity, exterior/enclosed domains and split "
          "components of the legacy objects are tied by correspondence to the same model functions as the current API "
